@@ -76,8 +76,8 @@ class StructuredGrammaticalEvolutionRepresentation(
         self.gene_length = gene_length
 
     def create_genotype(self, random: RandomSource, **kwargs) -> Genotype:
-        nodes = [str(node) for node in self.grammar.all_nodes]
-        for node in self.grammar.all_nodes:
+        nodes = [str(node) for node in self.grammar.ordered_nodes]
+        for node in self.grammar.ordered_nodes:
             arguments = get_arguments(node)
             for _, arg in arguments:
                 if is_generic(arg):
